@@ -495,6 +495,52 @@ func run(c *runner.Ctx) {
 			c.Sample(func() interface{} { return map[string]string{"entry": e.name, "value": sh.name} })
 		}
 	}
+	// (1a') the same catalogue as the object a rule set is registered for (nil, typed nils, scalars, collections, ...):
+	// registering and then validating returns normally whatever the target object is
+	c.Space("values-as-rule-set-targets")
+	trm := valid.RM{"V": "required,to=1~2", "S": "exist"}
+	for _, sh := range catalogue() {
+		for _, form := range []string{"SetRule(rm, target)", "SetRule(rm, target) then SetRule(rm)", "SetRule(nil, target)", "NestedStructForRule({target: rm})", "SetRule(rm, target, target)"} {
+			if !c.Take() {
+				continue
+			}
+			pan, msg, site := runner.Guard(func() {
+				switch form {
+				case "SetRule(rm, target)":
+					_ = valid.NewVStruct().SetRule(trm, sh.v).Valid(&Leaf{})
+					_ = valid.NewVStruct().SetRule(trm, sh.v).Valid(sh.v)
+				case "SetRule(rm, target) then SetRule(rm)":
+					_ = valid.NewVStruct().SetRule(trm, sh.v).SetRule(trm).Valid(&Holder{})
+				case "SetRule(nil, target)":
+					_ = valid.NewVStruct().SetRule(nil, sh.v).Valid(&Leaf{})
+				case "SetRule(rm, target, target)":
+					_ = valid.NewVStruct().SetRule(trm, sh.v, sh.v).Valid(&Leaf{})
+				default:
+					m := map[interface{}]valid.RM{}
+					hashable := true
+					func() {
+						defer func() {
+							if recover() != nil {
+								hashable = false // an unhashable map key is Go's own refusal, before the library is called
+							}
+						}()
+						m[sh.v] = trm
+					}()
+					if hashable {
+						_ = valid.NestedStructForRule(&Holder{}, m)
+						_ = valid.NestedStructForRule(sh.v, m)
+					}
+				}
+			})
+			c.Done(true, 1)
+			if pan {
+				c.Outcome("panic")
+				c.Violation(fmt.Sprintf("panic@%s/rule-set-target/%s", site, form), map[string]interface{}{"call": form, "target": sh.name, "panic": msg})
+			} else {
+				c.Outcome("returned")
+			}
+		}
+	}
 	// (1c) arbitrary byte strings as the *value* under every rule that looks at text: every string of <= 2 bytes over
 	// all 256 byte values, and every single-byte substitution / insertion in a few seed values
 	c.Space("value-bytes")
